@@ -13,6 +13,7 @@ mod c13;
 mod c14;
 mod c16;
 mod c19;
+mod c20;
 
 fn main() {
     let argv: Vec<String> = std::env::args().collect();
@@ -30,6 +31,7 @@ fn main() {
         "c14" => c14::run(&args),
         "c16" => c16::run(&args),
         "c19" => c19::run(&args),
+        "c20" => c20::run(&args),
         other => {
             eprintln!("unknown property worker: {other}");
             2
